@@ -1,8 +1,8 @@
 """C07 every accepted program compiles to SQL the selected dialect parses and binds."""
 import itertools, json, random, re
-import vlib, relgen, relcheck, corpus
+import vlib, relgen, relcheck, corpus, starexpand, sqlite3
 from vlib import vh_batch, drv_batch
-from props.c01 import SAFE, FULL, UNDECL
+from props.c01 import SAFE, FULL, UNDECL, RICH
 
 MANIFEST = dict(
     text="Lean theorems over the dialect flags regenerated from dialect.rs: fetch_needs_offset_and_order, limit_xor_fetch, "
@@ -52,6 +52,41 @@ HAND = [
     "from_text format:csv \"a,b\\n1,2\" | select {a}",
     "from t | filter a == null | filter b != null",
     "from t | group a (aggregate {s = sum b}) | filter s > 1 | sort s | take 3",
+]
+
+
+def scope_problems(sql):
+    """structural scope check of the emitted statement: a relation name used in FROM/JOIN that is the name of a CTE of this
+    statement must be defined EARLIER in the WITH list - or be the CTE itself, and then the list must be WITH RECURSIVE"""
+    try:
+        ctes, main = starexpand.split_ctes(sql[len("WITH RECURSIVE "):] and ("WITH " + sql[len("WITH RECURSIVE "):]) if sql.startswith("WITH RECURSIVE ") else sql)
+    except Exception:
+        return []
+    recursive = sql.startswith("WITH RECURSIVE ")
+    names = [n for n, _ in ctes]
+    out = []
+    for i, (n, body) in enumerate(ctes + [("<main>", main)]):
+        text = re.sub(r"'(?:[^']|'')*'", "''", body)
+        for ref in re.findall(r"(?:FROM|JOIN) (\w+)", text):
+            if ref in names:
+                j = names.index(ref)
+                if j == i and not recursive:
+                    out.append(f"CTE {n} reads from itself but the statement is not WITH RECURSIVE")
+                elif j > i:
+                    out.append(f"{n} reads from {ref}, which is defined later")
+    return out
+
+
+HAND_SCHEMA = [("t", ["a", "b", "c", "g", "id", "dt", "x", "n"]), ("u", ["id", "tid", "x", "b", "c", "k", "label"]), ("a", ["x", "n"]), ("b", ["x", "n"])]
+HAND_BIND = [
+    "from t | sort x | take 5 | join (from [{k = 1, label = 'one'}, {k = 2, label = 'two'}] | filter k > 0) (x == k)",
+    "from t | sort {-a} | take 3 | join side:left (from_text format:csv \"k,label\\n1,one\" | filter k != '') (t.b == k)",
+    "let s = (from t | sort a | take 4)\nfrom [{k = 1}] | filter k > 0 | join s (k == s.a)",
+    "from [{n = 1}] | loop (filter n < 4 | select n = n + 1) | take 5 | filter n > 1",
+    "from [{n = 1}] | loop (filter n < 4 | select n = n + 1) | sort n | take 2 | derive m = n * 2 | filter m > 1",
+    "from a | select {n} | loop (filter n < 3 | select n = n + 1) | aggregate {s = sum n} | filter s > 0",
+    "from t | sort a | take 3 | append (from [{a = 9, b = 9, c = 9, g = 9, id = 9, dt = 9, x = 9, n = 9}] | filter a > 0)",
+    "from t | group g (sort a | take 1) | join (from [{k = 1}] | derive {k2 = k + 1} | filter k2 > 1) (g == k)",
 ]
 
 
@@ -118,7 +153,7 @@ def run(ctx):
     ctx.obligation("correspondence: LIMIT/OFFSET/FETCH clause set = Model.Clause.emitFor for all dialects", nbad == 0, f"{len(meta)} cases")
 
     # (ii) corpus x dialects: parse
-    progs = [("hand", p) for p in HAND] + [("itest:" + n, p) for n, p in corpus.integration_queries()] + [("book:" + n, p) for n, p in corpus.book_examples()]
+    progs = [("hand", p) for p in HAND + HAND_BIND] + [("itest:" + n, p) for n, p in corpus.integration_queries()] + [("book:" + n, p) for n, p in corpus.book_examples()]
     gen_cases = []
     for rng, n, prof in [(random.Random(707), 60 if quick else 600, SAFE), (ctx.rng, 40 if quick else 600, FULL), (ctx.rng, 30 if quick else 400, UNDECL)]:
         gen_cases += [relgen.make_case(rng, **prof) for _ in range(n)]
@@ -151,7 +186,8 @@ def run(ctx):
             ctx.count("rejected:" + ("panic" if "panic" in a else "error"))
             if "panic" in a:
                 fid = relcheck.classify(type("X", (), {"prql": p, "columns": []})(), {"status": "panic", "detail": a["panic"], "sql": ""})
-                ctx.oracle_failure(fid, f"{d}: compile panicked: {a['panic'][:100]}", {"prql": p, "dialect": d, "panic": a["panic"]})
+                ctx.oracle_failure(fid, f"{d}: compile panicked: {a['panic'][:100]}", {"prql": p, "dialect": d, "panic": a["panic"]},
+                                   det_key=(p, d) if name != "gen" else None)
     pans = vh_batch(preqs)
     for (name, p, d, sql), pa in zip(pmeta, pans):
         ctx.case((p, d), nontrivial=True)
@@ -163,16 +199,45 @@ def run(ctx):
             bad = "does not parse: " + pa["parse_error"]
         elif pa.get("statements") != 1:
             bad = f"{pa.get('statements')} statements"
+        if not bad:
+            sp = scope_problems(sql)
+            if sp:
+                bad = "is ill-scoped: " + "; ".join(sp)
         if bad and any(d == gd and re.search(gs, sql) and re.search(gm, bad) for gd, gs, gm in GRAMMAR_GAPS):
             ctx.count("sqlparser-grammar-gap:" + d)
             continue
         if bad:
             fid = classify_text(p, sql, bad, d)
-            ctx.oracle_failure(fid, f"{d}: emitted SQL {bad}", {"prql": p, "dialect": d, "sql": sql, "problem": bad, "source": name})
+            ctx.oracle_failure(fid, f"{d}: emitted SQL {bad}", {"prql": p, "dialect": d, "sql": sql, "problem": bad, "source": name},
+                               det_key=(p, d) if name != "gen" else None)
         elif len(ctx.samples) < 4 and name == "hand" and d in ("mssql", "bigquery", "clickhouse", "snowflake"):
             ctx.sample({"prql": p, "dialect": d, "sql": sql[:200]})
 
+    # (iii-a) hand-written programs with literal / from_text / loop relations: prepare on SQLite against a schema with the tables
+    for target in ("sql.sqlite", "sql.generic"):
+        comp = vh_batch([{"op": "compile", "prql": p, "target": target} for p in HAND_BIND])
+        for p, a in zip(HAND_BIND, comp):
+            ctx.case((p, target, "bind-hand"), nontrivial="sql" in a)
+            if "sql" not in a:
+                ctx.count("bind-hand:rejected")
+                continue
+            con = sqlite3.connect(":memory:")
+            for n, cols in HAND_SCHEMA:
+                con.execute(f"CREATE TABLE {n} (" + ", ".join(cols) + ")")
+            try:
+                con.execute("EXPLAIN " + a["sql"])
+                ctx.count("bind-hand:ok")
+            except Exception as e:
+                r = {"status": "sqlite-error", "detail": f"OperationalError: {e}", "sql": a["sql"]}
+                fid = relcheck.classify(type("X", (), {"prql": p, "columns": []})(), r, target)
+                if target == "sql.generic" and re.search(r"no such function", str(e)):
+                    continue
+                ctx.oracle_failure(fid, f"{target}: SQLite cannot prepare the emitted SQL: {e}", {"prql": p, "target": target, "sql": a["sql"], "detail": str(e)},
+                                   det_key=(p, target))
+            finally:
+                con.close()
     # (iii) binding on SQLite
+    gen_cases = gen_cases + [relgen.make_case(rng, **RICH) for rng in [random.Random(7070)] for _ in range(120 if quick else 1200)]
     for target in ("sql.sqlite", "sql.generic"):
         res = relcheck.run_cases(gen_cases, target)
         for c, r in zip(gen_cases, res):
